@@ -1268,9 +1268,37 @@ class Context:
             I.pure = 0
             try:
                 nargs = 0
+                stable = set()
                 for kw_ in node.keywords:
                     if kw_.arg == 'nargs':
                         nargs = VInt(I.as_int(I.ev(kw_.value, frame))).const()
+                    if kw_.arg == 'stable':
+                        stable = set(ast.literal_eval(kw_.value))
+                given = [kw_.value for kw_ in node.keywords if kw_.arg == 'given']
+                # the callable fires LATER: every field of every repository object may have been reassigned in between
+                # (scalars, sequences, lists, dicts, optional values get fresh values; links to other repository objects
+                # keep their target, whose fields are havocked in turn).  What the closure captured by value is kept.
+                for loc_, cell_ in list(tmp.heap.items()):
+                    if isinstance(cell_, HObj) and cell_.cls is not None:
+                        for fname_, cur_ in list(cell_.fields.items()):
+                            if fname_ in stable or fname_.split('__')[-1] in stable:
+                                continue
+                            if isinstance(cur_, (VClosure, VFunc, VClass, VBuiltin, VModule, VType)):
+                                continue
+                            if isinstance(cur_, VRef) and isinstance(tmp.heap.get(cur_.loc), HObj):
+                                continue
+                            try:
+                                nv_ = self.loops.havoc_value(I, cur_, 'later_' + fname_)
+                            except Exception:
+                                continue
+                            tmp.heap[loc_] = tmp.heap[loc_].set(fname_, nv_)
+                # given=lambda: P - what the context that fires the callable guarantees about that later state (its precondition)
+                for g_ in given:
+                    I.pure += 1
+                    try:
+                        I.assume(I.truthy(I.ev(g_.body, frame)))
+                    finally:
+                        I.pure -= 1
                 cargs = [VOpaque(I.fresh('closure_arg', T.Obj), 'arg') for _ in range(nargs)]
                 try:
                     I.call(f, cargs, {}, node, frame)
